@@ -4,6 +4,7 @@ pub mod shadowsocks;
 pub mod vmess;
 
 use std::fmt::Debug;
+use std::future::Future;
 use std::marker::PhantomData;
 use std::pin::Pin;
 use std::task::Context;
@@ -152,18 +153,22 @@ where
     }
 }
 
+type Stopped = Pin<Box<dyn Future<Output = Result<Option<quinn::VarInt>, quinn::StoppedError>> + Send + Sync>>;
+
 pub struct QuicStream {
     send: quinn::SendStream,
     recv: quinn::RecvStream,
+    stopped: Option<Stopped>,
 }
 
 impl QuicStream {
     pub fn new(send: quinn::SendStream, recv: quinn::RecvStream) -> Self {
-        QuicStream { send, recv }
+        QuicStream { send, recv, stopped: None }
     }
 
     pub async fn close(mut self) -> Result<()> {
-        self.send.finish()?;
+        // the sink half has usually finished the stream already (poll_shutdown); that is not an error
+        let _ = self.send.finish();
         match self.send.stopped().await {
             Ok(_) => Ok(()),
             Err(e) => bail!(e),
@@ -187,6 +192,16 @@ impl AsyncWrite for QuicStream {
     }
 
     fn poll_shutdown(mut self: Pin<&mut Self>, cx: &mut Context<'_>) -> Poll<Result<(), std::io::Error>> {
-        AsyncWrite::poll_shutdown(Pin::new(&mut self.send), cx)
+        // finish the stream and wait until the peer has acknowledged everything written: the connection is dropped as
+        // soon as the flow ends, and dropping it abandons stream data that is still unsent or unacknowledged
+        if self.stopped.is_none() {
+            let _ = self.send.finish();
+            let stopped = self.send.stopped();
+            self.stopped = Some(Box::pin(stopped));
+        }
+        match self.stopped.as_mut() {
+            Some(stopped) => stopped.as_mut().poll(cx).map(|_| Ok(())),
+            None => Poll::Ready(Ok(())),
+        }
     }
 }
